@@ -23,7 +23,7 @@ CLAIMS["C12"] = {
             "dropped uninspected and only the three enumerated errors are tolerated (R12.2); no READ/WRITE/PARSE/HANDLER event follows an "
             "observed, un-tolerated error (R12.3: nothing is written after a failed write, no handler for a failed preamble); every cycle "
             "contains a suspension, transport I/O, the handler or an iterator step and Pending is propagated (R12.5: no spinning); "
-            "no prefix of the record stream - what an EOF or error at an arbitrary byte position leaves the parsers with - drives their framing code out of range (R12.7 = R3.11, E8). "
+            "no prefix of the record stream - what an EOF or error at an arbitrary byte position leaves the parsers with - drives their framing code out of range (R12.7 = R3.11, E8); on every path an error-carrying Result is inspected before it is dropped, overwritten or goes out of storage (R12.8, path-sensitive form of R12.2: a result parked in a local and looked at on one branch only is reported). "
             "Does NOT decide absence of panics in the async glue itself (expect / assert in async_io).",
     "note": "Event semantics of futures-io traits as documented; handler assumed to propagate I/O errors (as the statement says); "
             "panic-freedom not decided.",
@@ -96,7 +96,7 @@ CLAIMS["C17"] = {
             "equal the FastCGI specification (R17.1); From<ExitStatus> equals the documented table and ABORT == Complete(b\"ABRT\") (R17.2); "
             "each to_record places a {V1, own type, id, 8, 0} header before its body (R17.3); the end-of-request sequence is (empty stream "
             "header)* EndRequest(status,id) (R17.4); write_response emits one GetValuesResult for id 0 with config.max_conns / \"0\", appended "
-            "after existing contents, on every return path (the empty subset included), and RESPONSE_LEN covers the maximum by constant arithmetic (R17.5); the padding rule is {0, 8-r} (R17.6); "
+            "after existing contents, on every return path (the empty subset included), with the header exactly as set_lengths sized it (no other write to its length fields), and RESPONSE_LEN covers the maximum by constant arithmetic (R17.5); the padding rule is {0, 8-r} (R17.6); "
             "to_bytes/from_bytes of the four wire structs agree with each other and the spec layout, big-endian (R17.7); the version is "
             "validated before the type (R17.8); the stream list of the end-of-request sequence sent by Request::close is chosen from the writeable flag "
             "only after close() made the request writeable (R17.9 = R7.3), so it is the role's output streams; the integer conversions the layouts go through "
@@ -215,7 +215,7 @@ CLAIMS["C05"] = {
             "and hand over (buffer, n) with the unparsed input [raw_start, free_start) located at [0, n) of the buffer (E8 region tracking through discard and "
             "compaction, whatever their spelling); the request parser's constructor stores that length and starts in the initial state (R5.3); the "
             "request parser's compaction - in move_input, or written out in parse - leaves the drive's remainder at [0, input_len) (R5.4, E8); in the async layer close() never drives the stream parser while it stands at a record boundary, where buffered bytes belong to "
-            "the next request (R5.5, must-dataflow on the event graph); parse() accounts for new_input on every return path, final states included (R5.6 = R3.2); unread records are skipped with exact arithmetic for any amount of look-ahead (R5.7 = R3.11 for into_skip / SkipState::drive); a finished request parser may be fed look-ahead up to a full buffer without becoming a failed one (R5.8 = R6.2). Does NOT decide the behavioural consequence (k sequential requests == k separate connections).",
+            "the next request (R5.5, must-dataflow on the event graph); parse() accounts for new_input on every return path, final states included (R5.6 = R3.2); unread records are skipped with exact arithmetic for any amount of look-ahead (R5.7 = R3.11 for into_skip / SkipState::drive); a finished request parser may be fed look-ahead up to a full buffer without becoming a failed one (R5.8 = R6.2); a byte count is handed to Parser::parse at most once - no retry or `continue` reaches a parse call with a count an earlier call already took (R5.9, may-dataflow over the locals of the async layer). Does NOT decide the behavioural consequence (k sequential requests == k separate connections).",
     "note": "copy_within / Vec::truncate semantics of std trusted.",
     "design_ref": "DESIGN.md §4 C05",
 }
@@ -257,7 +257,7 @@ CLAIMS["C19"] = {
             "and otherwise delegate to VarName (R19.2); VarName::eq is eq_ignore_ascii_case, cmp folds both sides with to_ascii_uppercase, "
             "and every buffer handed to Hasher::write was upper-cased after input bytes were last copied into it (R19.3); the interned "
             "string table is total, all [A-Z0-9_], injective and equal to the variant names, and interned names are ordered by their "
-            "strings (R19.4); normalising constructors reach construction only through from_compact, which folds before parsing (R19.5); "
+            "strings (R19.4); normalising constructors reach construction only through from_compact, which folds before parsing and looks up the whole folded name, not a trimmed or sliced one (R19.5); "
             "header mapping uses \"HTTP_\", '-' and '_' (R19.6); the generated parse table (the entries of strum's phf map) accepts exactly the canonical string of "
             "each variant, no aliases (R19.7). Does NOT decide prefix-freeness of the 16-byte chunked hashing nor "
             "totality/antisymmetry of the order as computed facts.",
@@ -291,7 +291,7 @@ CLAIMS["C01"] = {
             "are {own id & empty => done, own id & data => continue with (content_length, padding_length), else untouched} (R1.4); across "
             "all framing implementations a payload counter is only assigned the header's content_length, itself minus a consumed amount, "
             "or 0, and a padding counter likewise from padding_length (R1.5); the buffer really has at least the configured size the statement's "
-            "premise speaks of (R1.6); the framing code and the pair decoder agree on how many bytes of a pair that crosses a record boundary went into the pair buffer (R1.7 = R6.4 + R6.5); the request parser for the next request of a kept connection starts at the unread input (R1.8 = R5.3); look-ahead fed to a parser that is already done does not replace the decoded request with StuckOnInput (R1.9 = R6.2). Does NOT decide equality of the decoded map for every record "
+            "premise speaks of (R1.6); the framing code and the pair decoder agree on how many bytes of a pair that crosses a record boundary went into the pair buffer (R1.7 = R6.4 + R6.5); the request parser for the next request of a kept connection starts at the unread input (R1.8 = R5.3); look-ahead fed to a parser that is already done does not replace the decoded request with StuckOnInput (R1.9 = R6.2); the pair buffer that collects a pair across record boundaries is emptied only on paths that inserted the pair (R1.10, must-dataflow). Does NOT decide equality of the decoded map for every record "
             "cut / read cut / buffer size: the cross-record reassembly arithmetic (parse_buffered, try_fill!) is value-level.",
     "note": "Name-value decoding itself is C16's subject; case-insensitive lookup is C19's.",
     "design_ref": "DESIGN.md §4 C01",
@@ -304,7 +304,7 @@ CLAIMS["C02"] = {
             "payload_rem -= n and (buffered mode) gap_start += n with copy_within of exactly n bytes from raw_start (R2.3: each byte once); "
             "the empty record of the active stream and any later stream are held back untouched and reported as end (R2.4); a stream "
             "change demotes and discards, and parse asserts an empty stream buffer before delivering into a caller buffer (R2.5); all "
-            "records of one call deliver through the same advancing caller-buffer cursor (R2.6); compress / consume_stream / discard_stream / stream_buffer keep every live byte region where the cursors say, also after partial consumption (R2.7 = R3.10, E8); delivered bytes are also reported through the async read interfaces (R2.8 = R9.3 + R9.7). Does NOT decide byte-exactness under all "
+            "records of one call deliver through the same advancing caller-buffer cursor (R2.6); compress / consume_stream / discard_stream / stream_buffer keep every live byte region where the cursors say, also after partial consumption (R2.7 = R3.10, E8); delivered bytes are also reported through the async read interfaces (R2.8 = R9.3 + R9.7); stream::Parser::parse constructs an error only where a record header is dispatched - the loop, the payload step and helpers, which see cursors and buffer sizes only, construct none, so the schedule never decides success (R2.9). Does NOT decide byte-exactness under all "
             "fill / consume / compress schedules (four-cursor geometry arithmetic).",
     "note": "cmp_input_streams' loop is covered by the pinned stream_order test; C18 covers the tables around it.",
     "design_ref": "DESIGN.md §4 C02",
